@@ -14,7 +14,8 @@ def MOk (cfg : Cfg) (s : Str) (st : State) : MRes → Prop
   | .yes st' => Inv cfg s st' ∧ st.pos < st'.pos
   | .fell st' => Inv cfg s st' ∧ st.pos < st'.pos ∧ st'.pos < s.length
   | .outOfFuel => False
-  | _ => True
+  | .err _ _ _ st' => PrefixOk cfg s st'.toks
+  | .no => True
 
 theorem slice_add (s : Str) (p n : Nat) : slice s p (p + n) = (s.drop p).take n := by
   simp [slice]
@@ -127,10 +128,10 @@ theorem matchTagEnd_ok (s : Str) (st : State) (h : Inv cfg s st) : MOk cfg s st 
     simp only [List.length_drop] at hr
     have hs := advance_stepped s st (st.pos + n) h.lineno (by omega) (by omega) (by omega)
     split
-    · trivial
+    · exact h.prefixOk
     · rename_i top restStack hstack
       split
-      · trivial
+      · exact h.prefixOk
       · exact ⟨Inv.of_tags (Inv.push_here h hs _ (by unfold Faithful; trivial)) _, hs.pos_gt⟩
 
 /-! ### match_control_line -/
@@ -148,13 +149,13 @@ theorem matchControlLine_ok (s : Str) (st : State) (h : Inv cfg s st) : MOk cfg 
       have hs := advance_stepped s st (st.pos + m.len) h.lineno (by omega) (by omega) (by omega)
       split
       · split
-        · trivial
+        · exact h.prefixOk
         · rename_i isend kw hkw
           split
           · split
-            · trivial
+            · exact h.prefixOk
             · split
-              · trivial
+              · exact h.prefixOk
               · exact ⟨Inv.of_ctls (Inv.push_here h hs _ (by unfold Faithful; exact hbol)) _, hs.pos_gt⟩
           · split
             · exact ⟨Inv.of_ctls (Inv.push_here h hs _ (by unfold Faithful; exact hbol)) _, hs.pos_gt⟩
@@ -162,7 +163,7 @@ theorem matchControlLine_ok (s : Str) (st : State) (h : Inv cfg s st) : MOk cfg 
               · exact ⟨Inv.push_here h hs _ (by unfold Faithful; exact hbol), hs.pos_gt⟩
               · split
                 · exact ⟨Inv.push_here h hs _ (by unfold Faithful; exact hbol), hs.pos_gt⟩
-                · trivial
+                · exact (Inv.push_here h hs _ (by unfold Faithful; exact hbol)).prefixOk
       · exact ⟨Inv.push_here h hs _ (by unfold Faithful; exact Or.inr hbol), hs.pos_gt⟩
   · trivial
 
@@ -202,14 +203,14 @@ theorem matchExpression_ok (s : Str) (st : State) (h : Inv cfg s st) : MOk cfg s
     split
     · rename_i hfu
       exact parseUntil_fuel terms_e1 hs.pos_le hs.lineno hfu
-    · trivial
+    · rename_i l c st' hf; exact h.prefixOk_of ((parseUntil_fail_toks hf).trans hs.toks)
     · rename_i st2 text term h1
       have m1 := parseUntil_found terms_e1 hs.pos_le hs.lineno h1
       split
       · split
         · rename_i hfu
           exact parseUntil_fuel terms_e2 m1.1.pos_le m1.1.lineno hfu
-        · trivial
+        · rename_i l c st' hf; exact h.prefixOk_of ((parseUntil_fail_toks hf).trans (m1.1.toks.trans hs.toks))
         · rename_i st3 esc _ h2
           have m2 := parseUntil_found terms_e2 m1.1.pos_le m1.1.lineno h2
           have mm := Moved.trans m1.1 m2.1
@@ -242,7 +243,7 @@ theorem matchPythonBlock_ok (s : Str) (st : State) (h : Inv cfg s st) : MOk cfg 
     split
     · rename_i hfu
       exact parseUntil_fuel terms_pb hs.pos_le hs.lineno hfu
-    · trivial
+    · rename_i l c st' hf; exact h.prefixOk_of ((parseUntil_fail_toks hf).trans hs.toks)
     · rename_i st2 text term h1
       have m1 := parseUntil_found terms_pb hs.pos_le hs.lineno h1
       exact ⟨Inv.push_construct h hs m1.1 _ (by unfold Faithful; trivial), by have := hs.pos_gt; have := m1.1.pos_ge; show st.pos < st2.pos; omega⟩
@@ -399,7 +400,7 @@ theorem tagEnd_after {s : Str} {st st7 : State} (h7 : Inv cfg s st7) (hgt : st.p
     | no => exact absurd hm (hr)
     | yes st' => rw [hm] at this; exact ⟨this.1, by have := this.2; omega⟩
     | fell st' => rw [hm] at this; exact ⟨this.1, by have := this.2.1; omega, this.2.2⟩
-    | err k l c st' => trivial
+    | err k l c st' => rw [hm] at this; exact this
     | outOfFuel => rw [hm] at this; exact this
 
 theorem MOk.mono {s : Str} {st st3 : State} {r : MRes} (h : MOk cfg s st3 r) (hle : st.pos ≤ st3.pos) : MOk cfg s st r := by
@@ -407,7 +408,7 @@ theorem MOk.mono {s : Str} {st st3 : State} {r : MRes} (h : MOk cfg s st3 r) (hl
   | no => trivial
   | yes st' => exact ⟨h.1, by have := h.2; omega⟩
   | fell st' => exact ⟨h.1, by have := h.2.1; omega, h.2.2⟩
-  | err k l c st' => trivial
+  | err k l c st' => exact h
   | outOfFuel => exact h
 
 theorem textTagBody_ok (cfg : Cfg) (s : Str) (st st3 : State) (inv3 : Inv cfg s st3) (hlt3 : st.pos < st3.pos) :
@@ -415,7 +416,7 @@ theorem textTagBody_ok (cfg : Cfg) (s : Str) (st st3 : State) (inv3 : Inv cfg s 
   unfold textTagBody
   simp only
   split
-  · trivial
+  · exact inv3.prefixOk
   · rename_i n hn
     have hsub := findSub_le hn
     have hpre := findSub_prefix hn
